@@ -92,6 +92,10 @@ func complex128Decode(dec *Decoder, t reflect.Type, p unsafe.Pointer) {
 }
 
 func interfaceDecode(dec *Decoder, t reflect.Type, p unsafe.Pointer) {
+	if t != nil && t.Kind() == reflect.Interface && t.NumMethod() > 0 {
+		dec.decodeNonEmptyInterface(t, dec.NextByte(), p)
+		return
+	}
 	dec.decodeInterface(dec.NextByte(), (*interface{})(p))
 }
 
@@ -164,6 +168,17 @@ func complex128PtrDecode(dec *Decoder, t reflect.Type, p unsafe.Pointer) {
 }
 
 func interfacePtrDecode(dec *Decoder, t reflect.Type, p unsafe.Pointer) {
+	if t != nil && t.Kind() == reflect.Ptr && t.Elem().Kind() == reflect.Interface && t.Elem().NumMethod() > 0 {
+		tag := dec.NextByte()
+		if tag == TagNull {
+			*(*unsafe.Pointer)(p) = nil
+			return
+		}
+		v := reflect.New(t.Elem())
+		dec.decodeNonEmptyInterface(t.Elem(), tag, unsafe.Pointer(v.Pointer()))
+		*(*unsafe.Pointer)(p) = unsafe.Pointer(v.Pointer())
+		return
+	}
 	dec.decodeInterfacePtr(dec.NextByte(), (**interface{})(p))
 }
 
